@@ -248,6 +248,10 @@ func TestVerifC02(t *testing.T) {
 		// a slow dial (4 s) and a slow server (2 s): together longer than the dial timeout, the caller's context is unbounded
 		c02Tsys("async-pipeline-tcp-c2-slowdial-slowsrv", tOpt{Kind: "pipeline-tcp", Callers: 2, MaxCq: 2, LazyQueue: 2, DialMenu: []int{5}, Srv: srvOpt{AnswerAll: true, Delay: 2 * time.Second}}, pp2),
 		c02Tsys("async-reuse-c1-slowdial-slowsrv", tOpt{Kind: "reuse", Callers: 1, DialMenu: []int{5}, Srv: srvOpt{AnswerAll: true, Delay: 2 * time.Second}}, p2),
+		// after its first answer the server does not read for 2 s: the next caller's Write blocks that long,
+		// the answer that is already here must be returned at once all the same
+		c02Tsys("async-tdc-tcp-c2-blocked-write", tOpt{Kind: "tdc-tcp", Callers: 2, Srv: srvOpt{AnswerAll: true, PauseAfterAnswer: 2 * time.Second}, CtxMode: []int{1, 0}}, p2),
+		c02Tsys("async-pipeline-tcp-c3-blocked-write", tOpt{Kind: "pipeline-tcp", Callers: 3, MaxCq: 3, LazyQueue: 3, Srv: srvOpt{AnswerAll: true, PauseAfterAnswer: 2 * time.Second}, CtxMode: []int{1, 1, 0}}, pp2),
 		c02Tsys("async-tdc-udp-c2-runt", tOpt{Kind: "tdc-udp", Callers: 2, Srv: srvOpt{Reorder: true, Short: true}, CtxMode: []int{1, 1}}, p2),
 		c02Tsys("async-reuse-c2-seq2", tOpt{Kind: "reuse", Callers: 2, Seq: 2, Srv: srvOpt{CloseBudget: 1, CloseAfterAnswerOnly: true}, CtxMode: []int{1, 1}}, pp2),
 	}
